@@ -390,6 +390,26 @@ class Extract:
         if k == "for":
             it = strip(s["iter"])
             step = None
+            if it.get("k") == "mcall" and it["name"] == "enumerate" and not it["args"] and s["pat"].get("k") == "tuple" and len(s["pat"]["ps"]) == 2:
+                # `for (n, v) in (a..b).step_by(s).enumerate()`: v walks the range, n = (v - a) / s is its ordinal
+                inner = strip(it["recv"])
+                rng0 = strip(inner["recv"]) if inner.get("k") == "mcall" and inner["name"] == "step_by" else inner
+                pn, pv = s["pat"]["ps"]
+                if rng0.get("k") == "struct" and rng0["path"] == "std::ops::Range" and pn.get("k") == "bind" and pv.get("k") == "bind":
+                    fs0 = dict((a, b) for a, b in rng0["fs"])
+                    try:
+                        st0 = self.plain(fs0["start"])
+                        sp0 = self.plain(inner["args"][0]) if inner is not rng0 else None
+                    except ValueError:
+                        st0 = None
+                    if st0 is not None:
+                        vat = Rat.atom("%s#%d" % (pv["name"], pv["hid"]))
+                        off = vat - st0
+                        self.env[pn["hid"]] = off if sp0 is None else e1.fn_atom("idiv", off, sp0)
+                        s = dict(s)
+                        s["pat"] = pv
+                        s["iter"] = inner
+                        it = inner
             if it.get("k") == "mcall" and it["name"] == "step_by":
                 step = self.plain(it["args"][0])
                 it = strip(it["recv"])
@@ -423,6 +443,23 @@ class Extract:
         if k == "if":
             c = strip(s["c"])
             if c.get("k") == "letx":
+                # `if let Some(v) = X.checked_sub(Y) { .. } [else { .. }]`: v = X - Y under the guard X >= Y
+                pat_ = c["pat"]
+                while pat_.get("k") in ("ref", "deref"):
+                    pat_ = pat_["p"]
+                oe = None
+                if pat_.get("k") == "tstruct" and pat_["path"].endswith("::Some") and len(pat_.get("ps") or []) == 1 and pat_["ps"][0].get("k") == "bind":
+                    try:
+                        oe = self.opt_expr(c["init"])
+                    except ValueError:
+                        oe = None
+                if oe is not None:
+                    val_, g_ = oe
+                    self.env[pat_["ps"][0]["hid"]] = val_
+                    self.block_of(s["th"], loops, guards + [g_])
+                    if s["el"] is not None:
+                        self.block_of(s["el"], loops, guards + [e1.negate_cond(g_)])
+                    return
                 self.block_of(s["th"], loops, guards)
                 if s["el"] is not None:
                     self.block_of(s["el"], loops, guards)
@@ -484,6 +521,11 @@ class Extract:
             if st.target is not None:
                 self.stmts.append(st)
             return
+        if k == "match" and s.get("from_if_let") and len(s["arms"]) == 2:
+            # an `if let P = e {A} else {B}` in its two-armed form (hir.matchified): same treatment as the `if let`
+            s = {"k": "if", "c": {"k": "letx", "pat": s["arms"][0]["pat"], "init": s["scrut"]}, "th": s["arms"][0]["body"],
+                 "el": None if (s["arms"][1]["body"].get("k") == "tup" and not s["arms"][1]["body"].get("xs")) else s["arms"][1]["body"], "line": s.get("line")}
+            return self.stmt(s, loops, guards)
         if k == "mcall" or k == "call" or k == "match" or k == "continue" or k == "break":
             return
 
@@ -534,6 +576,9 @@ def extract(crate, fn):
     # enumerate-driven loops are read in their index form (desugar D7); the function record is copied, the facts are not changed
     import copy as _copy
     from . import desugar as _ds
+    from .hir import matchified as _matchified
+    if any(x.get("k") == "letx" for x in walk(fn["body"])):
+        fn = _matchified(fn)        # `if let P = e {A} else {B}` read as the two-armed match it is
     if any(x.get("k") == "mcall" and x.get("name") in ("enumerate", "zip") for x in walk(fn["body"])):
         fn2 = _copy.deepcopy(fn)
         changed = False
@@ -543,4 +588,8 @@ def extract(crate, fn):
             changed = True
         if changed:
             fn = fn2
+    if any(x.get("k") == "mcall" and x.get("name") == "push" for x in walk(fn["body"])):
+        fn3 = _copy.deepcopy(fn)
+        if _ds.push_nests_to_index(fn3, crate.types):      # desugar D16: vectors built by one push per iteration, read in indexed form
+            fn = fn3
     return Extract(crate, fn).run()
